@@ -24,21 +24,28 @@ from .astutil import call_name
 from .frontend import FunctionInfo, Program, dotted, norm, parent, walk_local
 from .resolve import Resolver
 
-D, E, F, N = "D", "E", "F", "-"
-ORDER = {N: 0, F: 0, E: 1, D: 2}
+INF = 9          # unrelated / fresh all the way down
+D, E, F, N = 0, 1, INF, INF   # kept for readability: D = owned, E = fresh container of owned elements
 
 MUTATING_METHODS = {"append", "extend", "insert", "remove", "pop", "clear", "sort", "reverse", "add", "discard", "update",
-                    "setdefault", "popitem", "__setitem__", "__delitem__", "appendleft", "popleft", "shuffle_inplace",
+                    "setdefault", "popitem", "__setitem__", "__delitem__", "appendleft", "popleft",
                     "difference_update", "intersection_update", "symmetric_difference_update"}
-VIEW_METHODS = {"get", "values", "items", "keys", "__getitem__"}
+GROWING_METHODS = {"append": 0, "add": 0, "insert": 1, "extend": None, "update": None, "appendleft": 0}
+ELEMENT_METHODS = {"get", "__getitem__", "pop", "popitem"}
+VIEW_METHODS = {"values", "items", "keys"}
+ALIAS_METHODS = ELEMENT_METHODS | VIEW_METHODS
 SHALLOW_COPY_CALLS = {"list", "dict", "set", "tuple", "sorted", "frozenset", "reversed", "enumerate", "zip", "iter", "filter",
-                      "map", "OrderedDict", "defaultdict"}
-PURE_BUILTINS = {"len", "isinstance", "issubclass", "hasattr", "getattr", "id", "type", "str", "repr", "print", "sum", "max", "min",
-                 "any", "all", "int", "float", "bool", "abs", "round", "range", "hash", "callable", "format", "next"}
+                      "OrderedDict", "defaultdict"}
 
 
-def join(a: str, b: str) -> str:
-    return a if ORDER[a] >= ORDER[b] else b
+def below(d: int) -> int:
+    """depth of an element / attribute of a value of depth d"""
+    return INF if d >= INF else max(d - 1, 0)
+
+
+def wrap(d: int) -> int:
+    """depth of a fresh container holding values of depth d"""
+    return INF if d >= INF else min(d + 1, INF - 1)
 
 
 @dataclass
@@ -51,21 +58,25 @@ class Mutation:
 
 
 class MutationAnalysis:
+    """Freshness depth of a value with respect to the owned roots: 0 = the owned object itself (or an alias, attribute,
+    element, view of it); k >= 1 = a fresh object whose parts k levels down are owned; INF = unrelated or deep-fresh.
+    Mutating an expression of depth 0 is a finding."""
+
     def __init__(self, prog: Program, res: Resolver, depth: int = 4):
         self.prog, self.res, self.depth = prog, res, depth
-        self._param_summary: dict[tuple[str, int], list[Mutation]] = {}
-        self._busy: set[tuple[str, int]] = set()
+        self._param_summary: dict[tuple[str, int, int], list[Mutation]] = {}
+        self._busy: set[tuple[str, int, int]] = set()
         self.unresolved: list[tuple[FunctionInfo, ast.Call]] = []
-        self.allow_calls: dict[str, str] = {}   # callee fullname -> reason (not followed / not reported)
+        self.allow_calls: dict[str, str] = {}
+        self.probes: dict[int, int] = {}   # id(expr node) -> minimal depth observed
 
     # ----------------------------------------------------------------------------------------------
-    def analyse(self, fn: FunctionInfo, root_names: dict[str, str], is_root: Optional[Callable[[FunctionInfo, ast.AST], bool]] = None,
-                depth: Optional[int] = None, attr_store_on_root: bool = True) -> list[Mutation]:
-        """Mutations of owned objects inside fn.  root_names: local names that start as D (parameters);
-        is_root(fn, expr): expressions that denote a root by type (e.g. any Grammar-typed expression)."""
+    def analyse(self, fn: FunctionInfo, root_names: dict[str, int | str], is_root: Optional[Callable[[FunctionInfo, ast.AST], bool]] = None,
+                depth: Optional[int] = None, attr_store_on_root: bool = True, probes: Optional[list[ast.AST]] = None) -> list[Mutation]:
         depth = self.depth if depth is None else depth
         found: list[Mutation] = []
         seen_nodes: set[int] = set()
+        probe_ids = {id(p) for p in (probes or [])}
 
         def report(node: ast.AST, how: str, what: str, chain: tuple = ()):
             if id(node) in seen_nodes:
@@ -73,258 +84,267 @@ class MutationAnalysis:
             seen_nodes.add(id(node))
             found.append(Mutation(fn, node, how, what, chain))
 
-        def val(e: ast.AST, st: dict[str, str]) -> str:
+        def val(e: Optional[ast.AST], st: dict[str, int]) -> int:
+            r = val0(e, st)
+            if e is not None and id(e) in probe_ids:
+                self.probes[id(e)] = min(self.probes.get(id(e), INF), r)
+            return r
+
+        def val0(e: Optional[ast.AST], st: dict[str, int]) -> int:
             if e is None:
-                return N
+                return INF
             if is_root is not None and isinstance(e, (ast.Name, ast.Attribute)) and is_root(fn, e):
-                return D
+                return 0
             if isinstance(e, ast.Name):
-                return st.get(e.id, N)
+                return st.get(e.id, INF)
             if isinstance(e, ast.Attribute):
-                v = val(e.value, st)
-                return D if v == D else (D if v == E else N) if False else (D if v == D else N)
+                return below(val(e.value, st))
             if isinstance(e, ast.Subscript):
                 v = val(e.value, st)
                 if isinstance(e.slice, ast.Slice):
-                    return E if v in (D, E) else v
-                return D if v in (D, E) else N
+                    return INF if v >= INF else max(v, 1)     # shallow copy
+                return below(v)
             if isinstance(e, ast.Starred):
                 return val(e.value, st)
             if isinstance(e, ast.IfExp):
-                return join(val(e.body, st), val(e.orelse, st))
+                return min(val(e.body, st), val(e.orelse, st))
             if isinstance(e, ast.BoolOp):
-                r = N
-                for v_ in e.values:
-                    r = join(r, val(v_, st))
-                return r
+                return min(val(v_, st) for v_ in e.values)
             if isinstance(e, ast.BinOp):
                 a, b = val(e.left, st), val(e.right, st)
-                return E if D in (a, b) or E in (a, b) else N
+                m = min(a, b)
+                return INF if m >= INF else max(m, 1)
             if isinstance(e, (ast.List, ast.Tuple, ast.Set)):
-                r = N
-                for x in e.elts:
-                    if val(x, st) in (D, E):
-                        r = E
-                return r
+                return wrap(min([val(x, st) for x in e.elts] or [INF]))
             if isinstance(e, ast.Dict):
-                return E if any(val(v_, st) in (D, E) for v_ in e.values if v_ is not None) else N
+                return wrap(min([val(v_, st) for v_ in e.values if v_ is not None] or [INF]))
             if isinstance(e, (ast.ListComp, ast.SetComp, ast.GeneratorExp, ast.DictComp)):
                 sub = dict(st)
                 for g in e.generators:
-                    iv = val(g.iter, sub)
+                    iv = below(val(g.iter, sub))
                     for t in ast.walk(g.target):
                         if isinstance(t, ast.Name):
-                            sub[t.id] = D if iv in (D, E) else N
-                elts = [e.key, e.value] if isinstance(e, ast.DictComp) else [e.elt]
-                return E if any(val(x, sub) in (D, E) for x in elts) else N
+                            sub[t.id] = iv
+                elt = e.value if isinstance(e, ast.DictComp) else e.elt
+                return wrap(val(elt, sub))
             if isinstance(e, ast.Call):
                 nm = call_name(e)
-                if nm in ("deepcopy",):
-                    return F
-                if nm == "copy" and isinstance(e.func, ast.Attribute):
-                    v = val(e.func.value, st)
-                    if dotted(e.func.value) == "copy" and e.args:     # copy.copy(x)
-                        v = val(e.args[0], st)
-                    return E if v in (D, E) else N
-                if nm == "copy" and e.args:
-                    return E if val(e.args[0], st) in (D, E) else N
+                if nm == "deepcopy":
+                    return INF
+                if nm == "copy":
+                    src = e.func.value if isinstance(e.func, ast.Attribute) and dotted(e.func.value) != "copy" else (e.args[0] if e.args else None)
+                    v = val(src, st)
+                    return INF if v >= INF else max(v, 1)
                 if nm in SHALLOW_COPY_CALLS and isinstance(e.func, ast.Name):
-                    r = N
-                    for a in e.args:
-                        if val(a, st) in (D, E):
-                            r = E
-                    return r
+                    m = min([val(a, st) for a in e.args] or [INF])
+                    return INF if m >= INF else max(m, 1)
+                if isinstance(e.func, ast.Attribute) and nm in ELEMENT_METHODS:
+                    return below(val(e.func.value, st))
                 if isinstance(e.func, ast.Attribute) and nm in VIEW_METHODS:
-                    v = val(e.func.value, st)
-                    return D if v in (D, E) else N
-                if isinstance(e.func, ast.Attribute) and nm in ("pop", "popitem") and val(e.func.value, st) in (D, E):
-                    return D
-                # repo callee returning an alias of an argument
+                    return val(e.func.value, st)
                 owner = self.prog.function_containing(e) or fn
                 t = self.res.resolve(owner, e)
                 if t.kind == "repo":
-                    r = N
+                    r = INF
                     for g in t.targets:
                         for idx in self.returns_alias_of(g):
                             a = self._arg_for(e, g, idx)
-                            if a is not None and val(a, st) in (D, E):
-                                r = join(r, D)
+                            if a is not None:
+                                r = min(r, below(val(a, st)) if False else val(a, st))
                     return r
                 if t.kind == "ctor":
-                    # a new object holding owned parts: fresh container level
-                    return E if any(val(a, st) in (D, E) for a in list(e.args) + [k.value for k in e.keywords]) else N
-                return N
-            return N
+                    # A new object that stores owned parts in *some* field.  The analysis is field-insensitive, so
+                    # treating the whole object as 'one level above owned' would make every attribute of it look
+                    # owned; owned parts are instead re-identified where they are used (is_root by type / parameters).
+                    for a in list(e.args) + [k.value for k in e.keywords]:
+                        val(a, st)
+                    return INF
+                return INF
+            return INF
 
-        def check_expr(e: ast.AST, st: dict[str, str]):
-            """mutating calls inside an expression"""
+        def check_expr(e: ast.AST, st: dict[str, int]):
             for c in [x for x in ast.walk(e) if isinstance(x, ast.Call)]:
                 nm = call_name(c)
                 if isinstance(c.func, ast.Attribute):
                     rv = val(c.func.value, st)
-                    if rv == D and nm in MUTATING_METHODS:
+                    if rv == 0 and nm in MUTATING_METHODS:
                         report(c, f".{nm}()", norm(c.func.value))
                         continue
+                    if rv >= 1 and nm in GROWING_METHODS and isinstance(c.func.value, ast.Name):
+                        # a fresh container receives values: its depth is bounded by what it now holds
+                        ai = GROWING_METHODS[nm]
+                        args = [c.args[ai]] if ai is not None and len(c.args) > ai else list(c.args)
+                        dv = min([val(a, st) if ai is not None else below(val(a, st)) for a in args] or [INF])
+                        st[c.func.value.id] = min(rv, wrap(dv))
                 owner = self.prog.function_containing(c) or fn
                 t = self.res.resolve(owner, c)
                 args = list(c.args) + [k.value for k in c.keywords]
                 recv = c.func.value if isinstance(c.func, ast.Attribute) else None
-                dargs = [a for a in args if val(a, st) == D]
-                recv_d = recv is not None and val(recv, st) == D
-                if not dargs and not recv_d:
+                owned = [(a, val(a, st)) for a in args]
+                owned = [(a, d) for a, d in owned if d <= 1]     # the owned object, or a fresh container of owned objects
+                rd = val(recv, st) if recv is not None else INF
+                if rd != 0:
+                    rd = INF                                     # methods of fresh objects are analysed on their own
+                if not owned and rd >= INF:
                     continue
                 if t.kind == "repo" and depth > 0:
                     for g in t.targets:
                         if g.fullname in self.allow_calls:
                             continue
-                        for a in dargs:
+                        for a, d in owned:
                             idx = self._param_index(c, g, a)
                             if idx is None:
                                 continue
-                            for m in self.param_mutations(g, idx, depth - 1):
+                            for m in self.param_mutations(g, idx, depth - 1, d):
                                 report(c, f"passed to {g.qualname} which does {m.how}", norm(a), (g.fullname,) + m.chain)
-                        if recv_d and g.params and g.params[0] == "self":
-                            for m in self.param_mutations(g, 0, depth - 1):
+                        if rd == 0 and g.params and g.params[0] == "self":
+                            for m in self.param_mutations(g, 0, depth - 1, rd):
                                 report(c, f"method {g.qualname} does {m.how} on its receiver", norm(recv), (g.fullname,) + m.chain)
-                elif t.kind in ("unresolved",) and (dargs or recv_d):
+                elif t.kind == "unresolved" and (any(d == 0 for _, d in owned) or rd == 0):
                     self.unresolved.append((fn, c))
-                elif t.kind == "external" and nm in ("shuffle", "sort") and dargs:
-                    report(c, f"{nm}() in place", norm(dargs[0]))
+                elif t.kind == "external" and nm in ("shuffle",) and any(d == 0 for _, d in owned):
+                    report(c, f"{nm}() in place", norm(owned[0][0]))
 
-        def assign_target(t: ast.AST, v: str, st: dict[str, str], node: ast.AST):
+        def assign_target(t: ast.AST, v: int, st: dict[str, int], node: ast.AST):
             if isinstance(t, ast.Name):
-                if v in (D, E):
+                if v < INF:
                     st[t.id] = v
                 else:
                     st.pop(t.id, None)
             elif isinstance(t, (ast.Tuple, ast.List)):
                 for el in t.elts:
-                    assign_target(el, D if v in (D, E) else N, st, node)
+                    assign_target(el, below(v) if v < INF else INF, st, node)
             elif isinstance(t, ast.Subscript):
-                if val(t.value, st) == D:
+                bv = val(t.value, st)
+                if bv == 0:
                     report(node, "item store", norm(t.value))
+                elif isinstance(t.value, ast.Name) and not isinstance(t.slice, ast.Slice):
+                    st[t.value.id] = min(bv, wrap(v))
             elif isinstance(t, ast.Attribute):
                 bv = val(t.value, st)
-                if bv == D and attr_store_on_root:
+                if bv == 0 and attr_store_on_root:
                     report(node, f"attribute store .{t.attr}", norm(t.value))
+                elif isinstance(t.value, ast.Name) and bv >= 1:
+                    st[t.value.id] = min(bv, wrap(v))
             elif isinstance(t, ast.Starred):
                 assign_target(t.value, v, st, node)
 
-        def exec_block(stmts: list[ast.stmt], st: dict[str, str]) -> dict[str, str]:
-            for s in stmts:
-                st = exec_stmt(s, st)
+        def exec_block(stmts: list[ast.stmt], st: dict[str, int]) -> dict[str, int]:
+            for s_ in stmts:
+                st = exec_stmt(s_, st)
             return st
 
-        def merge(a: dict[str, str], b: dict[str, str]) -> dict[str, str]:
+        def merge(a: dict[str, int], b: dict[str, int]) -> dict[str, int]:
             out = dict(a)
             for k, v in b.items():
-                out[k] = join(out.get(k, N), v)
+                out[k] = min(out.get(k, INF), v)
             return out
 
-        def exec_stmt(s: ast.stmt, st: dict[str, str]) -> dict[str, str]:
-            if isinstance(s, (ast.FunctionDef, ast.AsyncFunctionDef, ast.ClassDef, ast.Import, ast.ImportFrom, ast.Pass,
-                              ast.Global, ast.Nonlocal, ast.Break, ast.Continue)):
+        def exec_stmt(s_: ast.stmt, st: dict[str, int]) -> dict[str, int]:
+            if isinstance(s_, (ast.FunctionDef, ast.AsyncFunctionDef, ast.ClassDef, ast.Import, ast.ImportFrom, ast.Pass,
+                               ast.Global, ast.Nonlocal, ast.Break, ast.Continue)):
                 return st
-            if isinstance(s, ast.Assign):
-                check_expr(s.value, st)
-                v = val(s.value, st)
-                for t in s.targets:
-                    assign_target(t, v, st, s)
+            if isinstance(s_, ast.Assign):
+                check_expr(s_.value, st)
+                v = val(s_.value, st)
+                for t in s_.targets:
+                    assign_target(t, v, st, s_)
                 return st
-            if isinstance(s, ast.AnnAssign):
-                if s.value is not None:
-                    check_expr(s.value, st)
-                    assign_target(s.target, val(s.value, st), st, s)
+            if isinstance(s_, ast.AnnAssign):
+                if s_.value is not None:
+                    check_expr(s_.value, st)
+                    assign_target(s_.target, val(s_.value, st), st, s_)
                 return st
-            if isinstance(s, ast.AugAssign):
-                check_expr(s.value, st)
-                tv = val(s.target, st) if not isinstance(s.target, ast.Name) else st.get(s.target.id, N)
-                if isinstance(s.target, ast.Name):
-                    if tv == D and isinstance(s.op, (ast.Add, ast.BitOr, ast.BitAnd, ast.Sub)):
-                        report(s, "augmented assignment (in place for containers)", s.target.id)
-                elif isinstance(s.target, (ast.Subscript, ast.Attribute)):
-                    if val(s.target.value, st) == D:
-                        report(s, "augmented item/attribute store", norm(s.target.value))
+            if isinstance(s_, ast.AugAssign):
+                check_expr(s_.value, st)
+                if isinstance(s_.target, ast.Name):
+                    if st.get(s_.target.id, INF) == 0 and isinstance(s_.op, (ast.Add, ast.BitOr, ast.BitAnd, ast.Sub)):
+                        report(s_, "augmented assignment (in place for containers)", s_.target.id)
+                elif isinstance(s_.target, (ast.Subscript, ast.Attribute)):
+                    if val(s_.target.value, st) == 0:
+                        report(s_, "augmented item/attribute store", norm(s_.target.value))
                 return st
-            if isinstance(s, ast.Delete):
-                for t in s.targets:
-                    if isinstance(t, (ast.Subscript, ast.Attribute)) and val(t.value, st) == D:
-                        report(s, "del", norm(t.value))
+            if isinstance(s_, ast.Delete):
+                for t in s_.targets:
+                    if isinstance(t, (ast.Subscript, ast.Attribute)) and val(t.value, st) == 0:
+                        report(s_, "del", norm(t.value))
                 return st
-            if isinstance(s, ast.Expr):
-                check_expr(s.value, st)
+            if isinstance(s_, ast.Expr):
+                check_expr(s_.value, st)
+                val(s_.value, st)
                 return st
-            if isinstance(s, (ast.Return,)):
-                if s.value is not None:
-                    check_expr(s.value, st)
+            if isinstance(s_, ast.Return):
+                if s_.value is not None:
+                    check_expr(s_.value, st)
+                    val(s_.value, st)
                 return st
-            if isinstance(s, ast.Raise):
+            if isinstance(s_, ast.Raise):
                 return st
-            if isinstance(s, ast.If):
-                check_expr(s.test, st)
-                a = exec_block(s.body, dict(st))
-                b = exec_block(s.orelse, dict(st))
+            if isinstance(s_, ast.If):
+                check_expr(s_.test, st)
+                a = exec_block(s_.body, dict(st))
+                b = exec_block(s_.orelse, dict(st))
                 return merge(a, b)
-            if isinstance(s, (ast.For, ast.AsyncFor)):
-                check_expr(s.iter, st)
-                iv = val(s.iter, st)
+            if isinstance(s_, (ast.For, ast.AsyncFor)):
+                check_expr(s_.iter, st)
+                iv = val(s_.iter, st)
                 cur = dict(st)
                 for _ in range(2):
-                    assign_target(s.target, D if iv in (D, E) else N, cur, s)
-                    cur = merge(cur, exec_block(s.body, dict(cur)))
-                return merge(cur, exec_block(s.orelse, dict(cur))) if s.orelse else cur
-            if isinstance(s, ast.While):
+                    assign_target(s_.target, below(iv) if iv < INF else INF, cur, s_) if not isinstance(s_.target, (ast.Tuple, ast.List)) \
+                        else assign_target(s_.target, iv if iv >= INF else max(below(iv), 0) + 1, cur, s_)
+                    cur = merge(cur, exec_block(s_.body, dict(cur)))
+                return merge(cur, exec_block(s_.orelse, dict(cur))) if s_.orelse else cur
+            if isinstance(s_, ast.While):
                 cur = dict(st)
                 for _ in range(2):
-                    check_expr(s.test, cur)
-                    cur = merge(cur, exec_block(s.body, dict(cur)))
+                    check_expr(s_.test, cur)
+                    cur = merge(cur, exec_block(s_.body, dict(cur)))
                 return cur
-            if isinstance(s, ast.Try):
-                a = exec_block(s.body, dict(st))
+            if isinstance(s_, ast.Try):
+                a = exec_block(s_.body, dict(st))
                 out = a
-                for h in s.handlers:
+                for h in s_.handlers:
                     out = merge(out, exec_block(h.body, merge(dict(st), a)))
-                if s.orelse:
-                    out = merge(out, exec_block(s.orelse, dict(a)))
-                if s.finalbody:
-                    out = exec_block(s.finalbody, out)
+                if s_.orelse:
+                    out = merge(out, exec_block(s_.orelse, dict(a)))
+                if s_.finalbody:
+                    out = exec_block(s_.finalbody, out)
                 return out
-            if isinstance(s, (ast.With, ast.AsyncWith)):
-                for it in s.items:
+            if isinstance(s_, (ast.With, ast.AsyncWith)):
+                for it in s_.items:
                     check_expr(it.context_expr, st)
                     if it.optional_vars is not None:
-                        assign_target(it.optional_vars, val(it.context_expr, st), st, s)
-                return exec_block(s.body, st)
-            if isinstance(s, ast.Assert):
-                check_expr(s.test, st)
+                        assign_target(it.optional_vars, val(it.context_expr, st), st, s_)
+                return exec_block(s_.body, st)
+            if isinstance(s_, ast.Assert):
+                check_expr(s_.test, st)
                 return st
-            if hasattr(ast, "Match") and isinstance(s, ast.Match):
-                check_expr(s.subject, st)
+            if hasattr(ast, "Match") and isinstance(s_, ast.Match):
+                check_expr(s_.subject, st)
                 out = dict(st)
-                for c in s.cases:
+                for c in s_.cases:
                     out = merge(out, exec_block(c.body, dict(st)))
                 return out
             return st
 
-        st0 = {k: D for k in root_names}
+        st0 = {k: (v if isinstance(v, int) else 0) for k, v in root_names.items()}
         exec_block(fn.node.body if isinstance(fn.node.body, list) else [], st0)
-        # nested functions / lambdas defined inside are analysed with the same initial roots (closures)
         for inner in [f for f in self.prog.functions.values() if f.parent is fn]:
             sub_roots = {k: v for k, v in root_names.items() if k not in inner.params}
-            for m in self.analyse(inner, sub_roots, is_root, depth, attr_store_on_root):
+            for m in self.analyse(inner, sub_roots, is_root, depth, attr_store_on_root, probes):
                 found.append(Mutation(fn, m.node, m.how + f" (in nested {inner.name})", m.what, m.chain))
         return found
 
     # ----------------------------------------------------------------------------------------------
-    def param_mutations(self, fn: FunctionInfo, idx: int, depth: int) -> list[Mutation]:
-        key = (fn.fullname, idx)
+    def param_mutations(self, fn: FunctionInfo, idx: int, depth: int, argdepth: int = 0) -> list[Mutation]:
+        key = (fn.fullname, idx, argdepth)
         if key in self._param_summary:
             return self._param_summary[key]
         if key in self._busy or idx >= len(fn.params):
             return []
         self._busy.add(key)
         try:
-            r = self.analyse(fn, {fn.params[idx]: "param"}, None, depth)
+            r = self.analyse(fn, {fn.params[idx]: argdepth}, None, depth)
         finally:
             self._busy.discard(key)
         self._param_summary[key] = r
@@ -362,16 +382,14 @@ class MutationAnalysis:
         if 0 <= pos < len(call.args):
             return call.args[pos]
         for k in call.keywords:
-            if k.arg == params[idx]:
+            if idx < len(params) and k.arg == params[idx]:
                 return k.value
         return None
 
     def _param_index(self, call: ast.Call, g: FunctionInfo, arg: ast.AST) -> Optional[int]:
         params = g.params
         off = 1 if (params and params[0] in ("self", "cls") and isinstance(call.func, ast.Attribute)) else 0
-        if g.name == "__init__" and not isinstance(call.func, ast.Attribute):
-            off = 1
-        if g.name == "__init__" and isinstance(call.func, ast.Attribute) and call_name(call) != "__init__":
+        if g.name == "__init__" and call_name(call) != "__init__":
             off = 1
         if arg in call.args:
             i = call.args.index(arg) + off
@@ -392,7 +410,7 @@ def _base_name(e: ast.AST) -> Optional[str]:
                 return None
             e = e.value
             continue
-        if isinstance(e, ast.Call) and isinstance(e.func, ast.Attribute) and e.func.attr in VIEW_METHODS:
+        if isinstance(e, ast.Call) and isinstance(e.func, ast.Attribute) and e.func.attr in ALIAS_METHODS:
             e = e.func.value
             continue
         return None
